@@ -278,6 +278,8 @@ def _run(ctx):
     # ---- R4 reset / skip semantics ------------------------------------------------------
     r4 = ctx.rule('R4', 'partial rerun re-accepts only failed items; skip '
                   'completes with SKIPPED and follows on-skip', 'GD')
+    from mstatic.rules import shared as _shd
+    _shd.upstream_states_are_completed_states(ctx, r4)
     ra = prog.func(RT + '._reset_actions')
     cfg = ctx.cfg(ra)
     sel = [n for n in own_nodes(ra.node) if isinstance(n, ast.ListComp)]
